@@ -2,7 +2,9 @@
 
 `export_program(p)` returns {"lang", "tt" (hash-consed type table), "decls" (top-level
 declarations in context order, nodes as nested dicts, types as indices into tt), "context"
-(every entry of the Context as [namespace, kind, name], insertion order)}.  The Lean reader is
+(every entry of the Context as [namespace, kind, name], insertion order), "ctxinfo" (parallel to
+"context": what the translators read of the *value* stored under the entry — None for `None`, the
+`class_type` of a class declaration, -1 for anything else)}.  The Lean reader is
 lean/Driver/ProgJson.lean; both sides list one field per attribute the AST class defines."""
 import src.ir.ast as ast
 import src.ir.types as tp
@@ -104,10 +106,26 @@ def export_context(ctx):
     return out
 
 
+def export_ctxinfo(ctx):
+    """parallel to `export_context`: None / class_type of a ClassDeclaration / -1"""
+    out = []
+    for ns, ents in ctx._context.items():
+        for kind in ("types", "funcs", "lambdas", "vars", "classes", "decls"):
+            for v in ents[kind].values():
+                if v is None:
+                    out.append(None)
+                elif isinstance(v, ast.ClassDeclaration) and isinstance(v.class_type, int):
+                    out.append(int(v.class_type))
+                else:
+                    out.append(-1)
+    return out
+
+
 def export_program(p):
     e = Exporter()
     decls = [e.node(d) for d in p.declarations]
-    return {"lang": p.language, "tt": e.tt.entries, "decls": decls, "context": export_context(p.context)}
+    return {"lang": p.language, "tt": e.tt.entries, "decls": decls, "context": export_context(p.context),
+            "ctxinfo": export_ctxinfo(p.context)}
 
 
 def count_nodes(j):
